@@ -29,7 +29,7 @@ def FLOORS(tier):
     q = tier == "quick"
     f = {"convert_solution-checks": 3000 if q else 10 ** 5, "export:Q": 60, "export:hJ": 60,
          "export:matrix_to_qubo": 60, "export:qubo_to_matrix": 100, "real-coefficients": 100,
-         "raw-repeated-labels": 50, "raw-long-spellings": 100, "cleared-and-refilled": 200, "matrix_to_qubo:tiny-units": 10, "matrix_to_qubo:nearly-symmetric": 10, "all-ones-solution": 30, "user-mapping:set_mapping": 60, "user-mapping:set_reverse_mapping": 60,
+         "raw-repeated-labels": 50, "raw-long-spellings": 100, "cleared-and-refilled": 200, "derived-from-common-ancestor": 100, "matrix_to_qubo:tiny-units": 10, "matrix_to_qubo:nearly-symmetric": 10, "all-ones-solution": 30, "user-mapping:set_mapping": 60, "user-mapping:set_reverse_mapping": 60,
          "export-before-relabelling": 80, "term-added-after-user-mapping": 40,
          "second-call-after-result-edited": 300, "convert_solution:flag-independent-of-form": 300,
          "user-mapping:positional+keywords": 10}
@@ -163,7 +163,21 @@ def case_method(ctx, rng):
         except KeyError:
             return
         ctx.cat("cleared-and-refilled")
-    if rng.random() < 0.7:
+    derived = False
+    if rng.random() < 0.15 and all(isinstance(x, (str, int)) and not isinstance(x, bool) for x in labs):
+        # two models derived from one ancestor by copying arithmetic, each growing by a label of its own; the second is the
+        # one that is exported
+        new1, new2 = (("sib_a", "sib_b") if all(isinstance(x, str) for x in labs) else
+                      ((max(labs) + 5, max(labs) + 9) if all(isinstance(x, int) for x in labs) else (None, None)))
+        if new1 is not None:
+            try:
+                sib_ = M - {(new1,): 1}
+                M = M + {(new2,): 2} if rng.random() < 0.5 else M + {(new2,): 2, (new2, new1): 1}
+                derived = True
+                ctx.cat("derived-from-common-ancestor")
+            except KeyError:
+                pass
+    if rng.random() < 0.7 and not derived:
         M.refresh()
     if rng.random() < 0.25 and M.num_binary_variables:
         # an earlier export on the same object, before the relabelling below (results must not be remembered)
